@@ -38,6 +38,10 @@ def run(ctx):
     ctx.do(rule_newest)
     ctx.do(rule_all_versions_kept)
     ctx.do(rule_save_load)
+    # what a store holds is what was added, under the version the caller named (or none): the stores hand the version on
+    # exactly as received
+    from . import C14
+    ctx.do(C14.rule_version_in_scope, rule_id="C11.version-forwarding", only_modules=("stix2.datastore",))
     from .pitfalls import rule_groupby_sorted, rule_single_use_iterators
     ctx.do(rule_groupby_sorted, "C11.iterator-pitfalls", ("stix2.datastore",))
     ctx.do(rule_single_use_iterators, "C11.iterator-pitfalls", ("stix2.datastore",))
